@@ -306,6 +306,27 @@ class NoValue(Exception):
     """The expression cannot be evaluated on the representative (not a finite-partition guard)."""
 
 
+class ValueIdentity(Exception):
+    """`is` / `is not` between two numbers: the language leaves the identity of equal immutable values to the
+    implementation (CPython shares the ints -5..256 only), so the outcome is not a function of the values.  Reported
+    as a violation of whatever rule evaluates the construct -- it is a statement about the code, not an analyser gap."""
+
+    def __init__(self, node, a, b):
+        super().__init__(f"identity comparison of the numbers {a!r} and {b!r}")
+        self.node = node
+
+
+def _is_number(v):
+    import fractions
+    return isinstance(v, (int, float, complex, fractions.Fraction)) and not isinstance(v, bool)
+
+
+def identity(op, a, b, node=None):
+    if _is_number(a) and _is_number(b):
+        raise ValueIdentity(node, a, b)
+    return (a is b) if isinstance(op, ast.Is) else (a is not b)
+
+
 _CMP = {
     ast.Eq: lambda a, b: a == b, ast.NotEq: lambda a, b: a != b, ast.Lt: lambda a, b: a < b,
     ast.LtE: lambda a, b: a <= b, ast.Gt: lambda a, b: a > b, ast.GtE: lambda a, b: a >= b,
@@ -365,7 +386,7 @@ def ceval(node: ast.AST, env: Dict[str, Any], hooks: Optional[Callable[[ast.AST,
         for op, right_node in zip(node.ops, node.comparators):
             right = ceval(right_node, env, hooks)
             try:
-                if not _CMP[type(op)](left, right):
+                if not (identity(op, left, right, node) if isinstance(op, (ast.Is, ast.IsNot)) else _CMP[type(op)](left, right)):
                     return False
             except TypeError as exc:
                 raise NoValue(f"{un(node)}: {exc}")
